@@ -632,6 +632,9 @@ class TreeTyper:
                         elems.append(self._elem(a))
                     elif c.func.attr == "update" and a.kind == "dict":
                         pairs.append(a.items)
+                    elif c.func.attr == "setdefault" and len(c.args) == 2 and ((isinstance(c.args[1], ast.Dict) and not c.args[1].keys)
+                                                                               or (isinstance(c.args[1], ast.Call) and txt(c.args[1].func) == "dict" and not c.args[1].args)):
+                        pass      # opens an (empty) group; the entries come from the d[group][key] = value stores
                     else:
                         return None
                 elif isinstance(recv, ast.Subscript) and isinstance(recv.value, ast.Name) and recv.value.id == name \
